@@ -4,6 +4,10 @@ From Coq Require Import ZArith List Arith Lia Bool Permutation.
 From FF Require Import Model.Tensor Spec.Kron Proofs.TensorIdx Proofs.TensorOrder Proofs.TensorKron.
 Import ListNotations.
 
+Section Generic.
+Context {T : Type} {EN : Entry T} {EL : EntryLaws T}.
+Local Notation arr := (garr T).
+
 (* ------------------------------------------------------------------ indices of a concatenated shape *)
 Lemma indices_app s1 : forall s2,
   indices (s1 ++ s2) = flat_map (fun a => map (app a) (indices s2)) (indices s1).
@@ -24,7 +28,7 @@ Definition merge_idx (groups : list (list nat)) (fi : list nat) : list nat :=
   map2 ravel groups (split_by groups fi).
 
 (* reshape from the fine shape (concat groups) to the coarse one (product of every group): same data *)
-Lemma indices_regroup groups : forall (h : list nat -> Z),
+Lemma indices_regroup groups : forall (h : list nat -> T),
   map (fun fi => h (merge_idx groups fi)) (indices (concat groups)) = map h (indices (map prodn groups)).
 Proof.
   induction groups as [|g gs IH]; intros h; [reflexivity|].
@@ -136,3 +140,4 @@ Proof.
       * etransitivity; [|exact IH2]. apply map_ext_in. intros l Hl.
         apply lookup_app_r; auto. apply Hnot. apply in_or_app. auto.
 Qed.
+End Generic.
